@@ -114,10 +114,22 @@ fn run_real(c: &Case, shift: i64, scale: f32) -> Vec<Out<f32>> {
 }
 /// `skip[i]`: do not call get() after step i (placeholder Ok(None) returned there, never compared)
 fn run_observed(c: &Case, shift: i64, scale: f32, skip: Option<&[bool]>) -> Vec<Out<f32>> {
+    run_alongside(c, shift, scale, skip, false)
+}
+/// `alongside`: a second controller with other gains and setpoint is updated with the same timestamps (other values)
+/// just before the one under test at every step
+fn run_alongside(c: &Case, shift: i64, scale: f32, skip: Option<&[bool]>, alongside: bool) -> Vec<Out<f32>> {
     let src = Src::<f32>::new();
     let mut pid = PIDControllerStream::new(src.dynref(), c.sp * scale, PIDKValues::new(c.kp, c.ki, c.kd));
+    let dsrc = Src::<f32>::new();
+    let mut other = PIDControllerStream::new(dsrc.dynref(), 1.0 - c.sp, PIDKValues::new(0.5, -2.0, 0.125));
     let mut outs = Vec::with_capacity(c.h.len());
     for e in &c.h {
+        if alongside {
+            match e { Ev::Some(t, v) => dsrc.some(*t + shift, 3.0 - 0.5 * *v), Ev::None => dsrc.none(), Ev::Err(x) => dsrc.err(*x) }
+            let _ = other.update();
+            let _ = other.get();
+        }
         match e {
             Ev::Some(t, v) => src.some(*t + shift, *v * scale),
             Ev::None => src.none(),
@@ -252,6 +264,13 @@ fn main() {
                 rep.violation("C04/get-schedule-affects-output", "pid", case, format!("step {}: {:?} when read after every update, {:?} when earlier reads are skipped (skip={:?}); case={:?}", i, outs[i], sparse[i], skip, c));
                 break;
             }
+        }
+        // ---- (b'') ... nor on a second controller living (and being updated) alongside
+        let along = run_alongside(&c, 0, 1.0, None, true);
+        rep.eval();
+        rep.tally("runs_with_a_second_instance_alongside");
+        if let Some(i) = (0..outs.len()).find(|&i| !out_same(&outs[i], &along[i], fsame)) {
+            rep.violation("C04/instances-not-independent", "pid", case, format!("step {}: {:?} alone, {:?} with a second PIDControllerStream updated alongside; case={:?}", i, outs[i], along[i], c));
         }
         // ---- (c) differential against the assembled controller
         let qsrc = Src::<Quantity>::new();
